@@ -1,0 +1,194 @@
+//go:build verif
+
+// Contracts for govc (contract-based deductive verification); comments only.
+package controllers
+
+// ---- ghost API store for the BindRequest status sub-resource (DESIGN 1.9) -------------------
+// A persisted revision of an object is identified by its resourceVersion string. The store content
+// of a BindRequest revision is given by the uninterpreted functions storedPhase / storedAttempts.
+// A successful write produces a new revision nextRV(rv) and decodes it into the in-memory object
+// (that is what the controller-runtime client does with the server's response); a failing write
+// leaves store and object alone. Whether the write issued against revision rv fails is the
+// uninterpreted oracle statusPatchFails(rv): every fault schedule is covered, no enumeration.
+//@ import bri "github.com/NVIDIA/KAI-scheduler/pkg/scheduler/api/bindrequest_info"
+//@ declare storedPhase(rv string) string
+//@ declare storedAttempts(rv string) int
+//@ declare nextRV(rv string) string
+//@ declare statusPatchFails(rv string) bool
+//@ declare statusWriterOf(c ref) ref
+// statusWrites(): number of BindRequest status writes issued so far (successful or not).
+//@ ghost statusWrites() int
+// snapshot of what the reconciler last read from the store (written by the assumed contract of Client.Get)
+//@ ghost gotPhase() string
+//@ ghost gotDeleted() bool
+//@ ghost gotPodNode() string
+//@ declare mergeBase(p ref) ref
+//@ declare isMergePatch(p ref) bool
+//@ define asBR(o ref) *schedulingv1alpha2.BindRequest = unbox(o, "*schedulingv1alpha2.BindRequest")
+
+// ASSUMED contracts of the external controller-runtime client (never verified against a body).
+//@ func sigs.k8s.io/controller-runtime/pkg/client.Client.Status
+//@   props C12 C11
+//@   pure
+//@   ensures result != nil && result == statusWriterOf(recv)
+//@ end
+
+//@ func sigs.k8s.io/controller-runtime/pkg/client.MergeFrom
+//@   props C12 C11
+//@   pure
+//@   ensures result != nil && isMergePatch(result) && mergeBase(result) == obj
+//@ end
+
+// Status().Patch(obj, MergeFrom(base)) on a BindRequest: JSON merge patch of the status diff
+// base -> obj. Fields that do not differ between base and obj are not sent and keep the stored value.
+//@ func sigs.k8s.io/controller-runtime/pkg/client.SubResourceWriter.Patch
+//@   props C12 C11
+//@   requires obj != nil && patch != nil
+//@   modifies asBR(obj).ResourceVersion, statusWrites()
+//@   ensures statusWrites() == old(statusWrites()) + ite(typeis(obj, "*schedulingv1alpha2.BindRequest"), 1, 0)
+//@   ensures typeis(obj, "*schedulingv1alpha2.BindRequest") && isMergePatch(patch) ==> (result != nil) == statusPatchFails(old(asBR(obj).ResourceVersion))
+//@   ensures result != nil ==> asBR(obj).ResourceVersion == old(asBR(obj).ResourceVersion)
+//@   ensures typeis(obj, "*schedulingv1alpha2.BindRequest") && isMergePatch(patch) && result == nil ==> asBR(obj).ResourceVersion == nextRV(old(asBR(obj).ResourceVersion))
+//@   ensures typeis(obj, "*schedulingv1alpha2.BindRequest") && isMergePatch(patch) && result == nil ==> storedPhase(asBR(obj).ResourceVersion) == ite(asBR(obj).Status.Phase == asBR(mergeBase(patch)).Status.Phase, storedPhase(old(asBR(obj).ResourceVersion)), asBR(obj).Status.Phase)
+//@   ensures typeis(obj, "*schedulingv1alpha2.BindRequest") && isMergePatch(patch) && result == nil ==> storedAttempts(asBR(obj).ResourceVersion) == ite(asBR(obj).Status.FailedAttempts == asBR(mergeBase(patch)).Status.FailedAttempts, storedAttempts(old(asBR(obj).ResourceVersion)), asBR(obj).Status.FailedAttempts)
+//@ end
+
+// C12: "The binder retries a failing request at most BackoffLimit times with the attempt count
+// persisted, after which the request is observably failed to the scheduler."
+// DESIGN C12: err != nil && limit != nil && limit > attempts ==> persisted.failedAttempts = attempts+1;
+// err != nil ==> persisted.phase = Failed and the error is returned; err == nil ==> persisted.phase = Succeeded.
+// "persisted" = content of the store revision the in-memory object carries at exit, unless the one
+// status write of this call was made to fail by the fault oracle.
+//@ define synced(br *schedulingv1alpha2.BindRequest) bool = storedPhase(br.ResourceVersion) == br.Status.Phase && storedAttempts(br.ResourceVersion) == br.Status.FailedAttempts
+//@ func (*BindRequestReconciler).UpdateStatus
+//@   props C12
+//@   requires r != nil && r.Client != nil && bindRequest != nil
+//@   requires synced(bindRequest)     // the object was read from the store (Reconcile: Client.Get)
+//@   requires bindRequest.Status.FailedAttempts >= 0
+//@   modifies bindRequest.Status.Phase, bindRequest.Status.Reason, bindRequest.Status.FailedAttempts, bindRequest.ResourceVersion, statusWrites()
+//@   ensures [retry-counter-persisted] err != nil && bindRequest.Spec.BackoffLimit != nil && *bindRequest.Spec.BackoffLimit > old(bindRequest.Status.FailedAttempts) ==> statusPatchFails(old(bindRequest.ResourceVersion)) || storedAttempts(bindRequest.ResourceVersion) == old(bindRequest.Status.FailedAttempts) + 1
+// the error is handed back to controller-runtime (=> requeue) exactly when this call had a status change to
+// persist; a request whose stored status already says Failed with no retry left returns nil: it is terminal and
+// must not be retried ("at most BackoffLimit times").
+//@   ensures [error-returned-when-status-changed] err != nil && (old(bindRequest.Status.Phase) != "Failed" || (bindRequest.Spec.BackoffLimit != nil && *bindRequest.Spec.BackoffLimit > old(bindRequest.Status.FailedAttempts))) ==> result1 == err
+//@   ensures [terminal-failure-not-retried] err != nil && old(bindRequest.Status.Phase) == "Failed" && !(bindRequest.Spec.BackoffLimit != nil && *bindRequest.Spec.BackoffLimit > old(bindRequest.Status.FailedAttempts)) ==> result1 == nil && result0.RequeueAfter == old(result.RequeueAfter)
+// step lemma of "atMostLimitRetries": the failing attempt that reaches the limit (or any failing attempt without a
+// limit) leaves an object for which the scheduler's IsFailed() holds, in memory and (unless the write failed) in the store.
+//@   ensures [limit-reached-is-failed] err != nil && (bindRequest.Spec.BackoffLimit == nil || old(bindRequest.Status.FailedAttempts) + 1 >= *bindRequest.Spec.BackoffLimit) ==> bri.brFailed(bindRequest)
+//@   ensures [limit-reached-is-failed-in-store] err != nil && (bindRequest.Spec.BackoffLimit == nil || old(bindRequest.Status.FailedAttempts) + 1 >= *bindRequest.Spec.BackoffLimit) ==> statusPatchFails(old(bindRequest.ResourceVersion)) || (storedPhase(bindRequest.ResourceVersion) == "Failed" && (bindRequest.Spec.BackoffLimit == nil || storedAttempts(bindRequest.ResourceVersion) >= *bindRequest.Spec.BackoffLimit))
+// and below the limit the distance to it shrinks by exactly one per persisted failing attempt ([retry-counter-persisted]),
+// so IsFailed() holds after at most BackoffLimit persisted failing reconciles (the induction over reconciles is not mechanised).
+//@   ensures [failed-phase-persisted] err != nil ==> statusPatchFails(old(bindRequest.ResourceVersion)) || storedPhase(bindRequest.ResourceVersion) == "Failed"
+//@   ensures [succeeded-phase-persisted] err == nil ==> statusPatchFails(old(bindRequest.ResourceVersion)) || storedPhase(bindRequest.ResourceVersion) == "Succeeded"
+//@   ensures [one-write-iff-status-changed] statusWrites() == old(statusWrites()) + ite(bindRequest.Status.Phase != old(bindRequest.Status.Phase) || bindRequest.Status.FailedAttempts != old(bindRequest.Status.FailedAttempts), 1, 0)
+//@   ensures [attempts-never-decrease] storedAttempts(bindRequest.ResourceVersion) >= old(bindRequest.Status.FailedAttempts)
+//@   ensures [no-error-invented] err == nil ==> result1 == nil
+//@   ensures [retry-requeued] err != nil && bindRequest.Spec.BackoffLimit != nil && *bindRequest.Spec.BackoffLimit > old(bindRequest.Status.FailedAttempts) ==> result0.RequeueAfter >= 1000000000
+//@   ensures [no-retry-no-requeue-change] !(err != nil && bindRequest.Spec.BackoffLimit != nil && *bindRequest.Spec.BackoffLimit > old(bindRequest.Status.FailedAttempts)) ==> result0.RequeueAfter == old(result.RequeueAfter) && result0.Requeue == old(result.Requeue)
+//@ end
+
+// C17: "After any sequence of binds, bind failures, pod completions or deletions ... and the sync
+// that follows them": a pod update is a completion event iff both objects are pods, the phase
+// changed, and the new phase is terminal (Failed or Succeeded).
+//@ define asPod(o ref) *corev1.Pod = unbox(o, "*corev1.Pod")
+//@ func isCompletionEvent
+//@   props C17
+//@   requires typeis(oldObject, "*corev1.Pod") ==> asPod(oldObject) != nil     // events never carry typed-nil pods
+//@   requires typeis(newObject, "*corev1.Pod") ==> asPod(newObject) != nil
+//@   pure
+//@   ensures result == (typeis(oldObject, "*corev1.Pod") && typeis(newObject, "*corev1.Pod") && asPod(oldObject).Status.Phase != asPod(newObject).Status.Phase && (asPod(newObject).Status.Phase == "Failed" || asPod(newObject).Status.Phase == "Succeeded"))
+//@ end
+
+// ---- C11: Reconcile protocol ------------------------------------------------------------------
+//@ define asNode(o ref) *v1.Node = unbox(o, "*v1.Node")
+//@ define asV1Pod(o ref) *v1.Pod = unbox(o, "*v1.Pod")
+// Client.Get (ASSUMED): on success the fetched object is decoded into obj; outcome nondeterministic.
+//@ func sigs.k8s.io/controller-runtime/pkg/client.Client.Get
+//@   props C11
+//@   requires obj != nil
+//@   modifies fields(asBR(obj)), fields(asV1Pod(obj)), fields(asNode(obj)), gotPhase(), gotDeleted(), gotPodNode()
+//@   ensures result == nil && typeis(obj, "*schedulingv1alpha2.BindRequest") ==> synced(asBR(obj)) && asBR(obj).Status.FailedAttempts >= 0
+//@   ensures result == nil && typeis(obj, "*schedulingv1alpha2.BindRequest") ==> gotPhase() == asBR(obj).Status.Phase && gotDeleted() == (asBR(obj).DeletionTimestamp != nil)
+//@   ensures !(result == nil && typeis(obj, "*schedulingv1alpha2.BindRequest")) ==> gotPhase() == old(gotPhase()) && gotDeleted() == old(gotDeleted())
+//@   ensures result == nil && typeis(obj, "*v1.Pod") ==> gotPodNode() == asV1Pod(obj).Spec.NodeName
+//@   ensures !(result == nil && typeis(obj, "*v1.Pod")) ==> gotPodNode() == old(gotPodNode())
+//@   ensures result == nil && typeis(obj, "*v1.Node") ==> asNode(obj).Name == key.Name
+//@   ensures result == nil && typeis(obj, "*v1.Pod") ==> asV1Pod(obj).Name == key.Name && asV1Pod(obj).Namespace == key.Namespace
+//@ end
+
+//@ func sigs.k8s.io/controller-runtime/pkg/client.Client.Delete
+//@   props C11
+//@   requires obj != nil
+//@   pure
+//@ end
+
+//@ func sigs.k8s.io/controller-runtime/pkg/client.ObjectKeyFromObject
+//@   props C11
+//@   pure
+//@   ensures typeis(obj, "*v1.Node") ==> result.Name == asNode(obj).Name
+//@   ensures typeis(obj, "*v1.Pod") ==> result.Name == asV1Pod(obj).Name && result.Namespace == asV1Pod(obj).Namespace
+//@ end
+
+//@ func sigs.k8s.io/controller-runtime/pkg/client.IgnoreNotFound
+//@   props C11
+//@   pure
+//@   ensures err == nil ==> result == nil
+//@   ensures result == nil || result == err
+//@ end
+
+// event + pod condition patch: json.Marshal, record.EventRecorder and the vendored podutil.UpdatePodCondition are
+// outside the subset; it only touches the in-memory pod and the pod's status sub-resource.
+//@ func (*BindRequestReconciler).updatePodCondition
+//@   props C11
+//@   trusted
+//@   note json.Marshal / record.EventRecorder / k8s.io/kubernetes podutil.UpdatePodCondition: outside the subset; assumed to write only the pod object
+//@   requires r != nil && bindRequest != nil && pod != nil
+//@   modifies pod.Status, pod.ResourceVersion
+//@ end
+
+// C11: "A pod is never bound twice or to another node, a request that already Succeeded or whose pod is already
+// bound is a no-op"; mechanism "Reconcile: Bind, on error Rollback, deferred UpdateStatus".
+//@ func (*BindRequestReconciler).Reconcile
+//@   props C11
+//@   requires r != nil && r.Client != nil && r.binder != nil
+//@   modifies *
+//@   ensures [never-bound-twice] binding.bindAttempts() <= old(binding.bindAttempts()) + 1
+//@   ensures [no-bind-when-succeeded-deleted-or-already-bound] binding.bindAttempts() > old(binding.bindAttempts()) ==> gotPhase() != "Succeeded" && !gotDeleted() && gotPodNode() == ""
+//@   ensures [succeeded-or-deleted-is-noop] statusWrites() > old(statusWrites()) || binding.rollbacks() > old(binding.rollbacks()) ==> gotPhase() != "Succeeded" && !gotDeleted()
+//@   ensures [bound-to-the-selected-node-only] binding.bindAttempts() > old(binding.bindAttempts()) ==> pod != nil && binding.bindNodeOf(pod) == bindRequest.Spec.SelectedNode && pod.Name == bindRequest.Spec.PodName && pod.Namespace == bindRequest.Namespace
+//@   ensures [rollback-only-after-bind] binding.rollbacks() <= old(binding.rollbacks()) + 1 && (binding.rollbacks() > old(binding.rollbacks()) ==> binding.bindAttempts() > old(binding.bindAttempts()))
+//@   ensures [reported-bind-failure-was-rolled-back] err != nil && binding.bindAttempts() > old(binding.bindAttempts()) ==> binding.rollbacks() == old(binding.rollbacks()) + 1
+//@   ensures [at-most-one-status-write] statusWrites() <= old(statusWrites()) + 1
+//@ end
+
+// C17 (mechanism "pod delete/completion and BindRequest delete handlers call SyncForGpuGroup"): the handler asks for a
+// sync of EVERY group that resources.GetGpuGroups reports for the pod, whether or not earlier syncs failed.
+//@ import rr "github.com/NVIDIA/KAI-scheduler/pkg/binder/binding/resourcereservation"
+//@ func (*PodReconciler).syncReservationIfNeeded
+//@   props C17
+//@   requires r != nil && r.ResourceReservation != nil
+//@   requires typeis(object, "*corev1.Pod") ==> asPod(object) != nil
+//@   modifies family(rr.gone(nil)), family(rr.syncRequested(""))
+//@   loop 1
+//@     invariant 0 - 1 <= rangeindex && rangeindex < len(gpuGroups)
+//@     invariant forall i int :: 0 <= i && i <= rangeindex ==> rr.syncRequested(gpuGroups[i])
+//@     invariant forall g string :: old(rr.syncRequested(g)) ==> rr.syncRequested(g)
+//@     invariant forall g string :: rr.syncRequested(g) && !old(rr.syncRequested(g)) ==> (exists i int :: 0 <= i && i <= rangeindex && gpuGroups[i] == g)
+//@     decreases len(gpuGroups) - rangeindex
+//@   ensures [every-group-of-the-pod-synced] typeis(object, "*corev1.Pod") ==> (forall i int :: 0 <= i && i < len(gpuGroups) ==> rr.syncRequested(gpuGroups[i]))
+//@   ensures [only-groups-of-the-pod-synced] forall g string :: rr.syncRequested(g) && !old(rr.syncRequested(g)) ==> typeis(object, "*corev1.Pod") && (exists i int :: 0 <= i && i < len(gpuGroups) && gpuGroups[i] == g)
+//@ end
+
+// BindRequest deleted: every selected GPU group of a shared-GPU request is synced.
+//@ func (*BindRequestReconciler).deleteHandler
+//@   props C17
+//@   requires r != nil && r.resourceReservation != nil
+//@   requires typeis(event.Object, "*schedulingv1alpha2.BindRequest") ==> asBR(event.Object) != nil
+//@   modifies family(rr.gone(nil)), family(rr.syncRequested(""))
+//@   loop 1
+//@     invariant 0 - 1 <= rangeindex && rangeindex < len(bindRequest.Spec.SelectedGPUGroups)
+//@     invariant forall i int :: 0 <= i && i <= rangeindex ==> rr.syncRequested(bindRequest.Spec.SelectedGPUGroups[i])
+//@     invariant forall g string :: old(rr.syncRequested(g)) ==> rr.syncRequested(g)
+//@     decreases len(bindRequest.Spec.SelectedGPUGroups) - rangeindex
+//@   ensures [every-selected-group-synced] typeis(event.Object, "*schedulingv1alpha2.BindRequest") && asBR(event.Object).Spec.ReceivedResourceType == "Fraction" ==> (forall i int :: 0 <= i && i < len(asBR(event.Object).Spec.SelectedGPUGroups) ==> rr.syncRequested(asBR(event.Object).Spec.SelectedGPUGroups[i]))
+//@ end
